@@ -3,7 +3,8 @@ import json, os, sys, time, hashlib
 
 VERIF = os.path.dirname(os.path.dirname(os.path.abspath(__file__)))
 REPO = os.environ.get('VERIF_REPO', '/repo')
-BUILD = os.path.join(VERIF, 'build')
+BUILD = os.path.join(VERIF, 'build', os.environ['VERIF_BUILD_TAG']) if os.environ.get('VERIF_BUILD_TAG') else os.path.join(VERIF, 'build')
+EVIDENCE = os.environ.get('VERIF_EVIDENCE_DIR') or os.path.join(VERIF, 'evidence')
 SPEC = os.path.join(VERIF, 'spec')
 PY = '/venv/bin/python'
 SEED = int(os.environ.get('VERIF_SEED', '0') or 0)
@@ -43,7 +44,10 @@ class Findings:
         self.known = []
         if os.path.exists(p):
             d = json.load(open(p))
-            self.known = d.get('known', [])
+            self.known = list(d.get('known', []))
+        import glob
+        for q in sorted(glob.glob(os.path.join(VERIF, 'known_findings.d', '*.json'))):
+            self.known += json.load(open(q)).get('known', [])
         self.hit = {}
 
     def match(self, pid, key):
@@ -101,8 +105,8 @@ class Verdict:
         cov['known_findings_reobserved'] = sorted(self.findings.hit)
         ev = {'property_id': self.pid, 'tier': self.tier, 'seed': SEED, 'level': self.level, 'coverage': cov,
               'assumptions': self.assumptions, 'wall_s': round(wall, 2), 'violations': len(self.violations)}
-        ensure_dir(os.path.join(VERIF, 'evidence'))
-        json.dump(ev, open(os.path.join(VERIF, 'evidence', self.pid + '.json'), 'w'), indent=1, default=str)
+        ensure_dir(EVIDENCE)
+        json.dump(ev, open(os.path.join(EVIDENCE, self.pid + '.json'), 'w'), indent=1, default=str)
         print('%s %s: %s in %.1fs  %s' % (self.pid, self.tier, 'VIOLATED' if rc else 'ok', wall,
               {k: v for k, v in cov.items() if isinstance(v, (int, bool))}))
         return rc
